@@ -242,6 +242,7 @@ def slen(v):
     return z3.Length(v)
 
 def to_z3bytes(v):
+    if type(v).__name__ == "ByteBuf": return to_z3bytes(v.v)          # a bytearray (possibly with symbolic content)
     if is_symbytes(v): return v
     if isinstance(v, (bytes, bytearray)):
         if len(v) == 0: return z3.Empty(BYTES)
@@ -1928,7 +1929,7 @@ class ByteBuf:
 
 strupper = z3.Function("strupper", z3.StringSort(), z3.StringSort())
 strlower = z3.Function("strlower", z3.StringSort(), z3.StringSort())
-SYMSTR_METHODS = {"count", "rfind", "isascii", "upper", "lower", "index", "find", "endswith", "startswith", "encode", "ljust", "rjust", "split", "rpartition", "partition"}
+SYMSTR_METHODS = {"count", "rfind", "isascii", "isdigit", "upper", "lower", "index", "find", "endswith", "startswith", "encode", "ljust", "rjust", "split", "rpartition", "partition"}
 
 class SymSplit:
     """s.split(sep) of a symbolic string: only the first and the last piece are modelled"""
@@ -2031,6 +2032,7 @@ def str_find(eng, s, x):
 
 
 strisascii = z3.Function("str_isascii", z3.StringSort(), z3.BoolSort())
+strisdigit = z3.Function("str_isdigit", z3.StringSort(), z3.BoolSort())
 strrfind = z3.Function("str_rfind", z3.StringSort(), z3.StringSort(), z3.IntSort(), z3.IntSort(), z3.IntSort())
 strcount = z3.Function("str_count", z3.StringSort(), z3.StringSort(), z3.IntSort())        # number of non-overlapping occurrences: uninterpreted, with its range
 
@@ -2054,6 +2056,17 @@ def symstr_method(eng, s, attr, a):
         eng.assume(z3.ForAll([j_], z3.Implies(z3.And(j_ > r_, j_ >= lo, j_ < hi, j_ < z3.Length(zstr(s))), z3.SubString(zstr(s), j_, 1) != sub)))
         eng.assumptions.add("str.rfind(one character, lo, hi) is external: an uninterpreted function with the documented contract (last position or -1)")
         return r_
+    if attr == "isdigit":
+        # uninterpreted predicate with the facts the stdlib guarantees for one ASCII character: the ten digits are digits, the other ASCII characters
+        # are not; the empty string is not; everything else (digits of other scripts, longer strings) is left open
+        eng.assumptions.add("str.isdigit() is an uninterpreted predicate on symbolic strings (facts: '0'..'9' are digits, other single ASCII characters and '' are not)")
+        r = strisdigit(s)
+        one = z3.Length(s) == 1
+        code = z3.StrToCode(s)
+        eng.assume(z3.Implies(z3.And(one, code >= 48, code <= 57), r))
+        eng.assume(z3.Implies(z3.And(one, code >= 0, code < 128, z3.Or(code < 48, code > 57)), z3.Not(r)))
+        eng.assume(z3.Implies(z3.Length(s) == 0, z3.Not(r)))
+        return r
     if attr == "isascii":
         # uninterpreted predicate (like upper/lower): which characters it admits is the stdlib's business; contracts that need the link
         # discharge it by enumeration over the code points
